@@ -71,6 +71,96 @@ def slice_walks(scratch, name, sl, maxlen, seed, limit):
 # --------------------------------------------------------------------------
 # executing histories on real curves (process pool)
 # --------------------------------------------------------------------------
+def sentinel():
+    """Default-everything use of every entry point on fresh objects -> named
+    digests.  It is both the probe and a trigger: whatever a call with
+    defaults leaves behind in module-level state shows in the next run."""
+    import hashlib
+    import warnings
+    import numpy as np
+    import synth
+    import oracle as orc
+    from nanite import model, preproc
+    from nanite.rate import rater as nrater
+    from nanite.rate.regressors import reg_dict
+    P1 = world.PIPES["P1"][0]
+    out = {}
+
+    def dg(*vals):
+        h = hashlib.sha1()
+        for v in vals:
+            if isinstance(v, np.ndarray):
+                h.update(np.ascontiguousarray(v).tobytes())
+            else:
+                h.update(repr(v).encode())
+        return h.hexdigest()[:12]
+
+    def state(idnt):
+        fp = idnt.fit_properties
+        pf = fp.get("params_fitted")
+        return dg(fp.get("hash"), fp.get("success"),
+                  world._norm(pf) if pf is not None else None,
+                  np.asarray(idnt["fit range"]) if "fit range" in idnt
+                  else None, fp.get("xmin"), fp.get("xmax"),
+                  sorted((k, repr(world._norm(v))) for k, v in fp.items()
+                         if k in world.FP_KEYS))
+    with warnings.catch_warnings():
+        warnings.simplefilter("ignore")
+        a = synth.make_curve(n_app=300, noise=2e-11, seed=3)
+        a.apply_preprocessing(list(P1))
+        a.fit_model(model_key="hertz_para")
+        out["fit_default"] = state(a)
+        out["rate_default"] = dg(orc.fhex(a.rate_quality()))
+        out["init_params"] = dg(world._norm(a.get_initial_fit_parameters()))
+        b = synth.make_curve(n_app=300, noise=2e-11, seed=3)
+        b.apply_preprocessing(list(P1))
+        b.fit_properties["optimal_fit_num_samples"] = 8
+        e, d = b.compute_emodulus_mindelta()
+        out["scan_default"] = dg(np.asarray(e, float), np.asarray(d, float))
+        b.fit_model(model_key="hertz_para")
+        out["fit_after_scan"] = state(b)
+        c = synth.make_curve(n_app=300, noise=2e-11, seed=3)
+        c.apply_preprocessing(list(P1))
+        c.fit_model(model_key="hertz_para", method="nelder")
+        out["fit_nelder"] = state(c)
+        c2 = synth.make_curve(n_app=300, noise=2e-11, seed=3)
+        c2.apply_preprocessing(list(P1))
+        c2.fit_model(model_key="hertz_cone", range_type="relative cp",
+                     range_x=[-5e-7, 2e-7])
+        out["fit_relative"] = state(c2)
+        # refusals, then the defaults again
+        for bad in (["compute_tip_position", "bogus"], ["correct_tip_offset"]):
+            try:
+                preproc.autosort(list(bad))
+            except (ValueError, KeyError):
+                pass
+            try:
+                x = synth.make_curve(n_app=60, seed=1)
+                x.apply_preprocessing(list(bad))
+            except (ValueError, KeyError):
+                pass
+        av = list(preproc.available())
+        out["preproc"] = dg(av, preproc.autosort(list(av)),
+                            preproc.autosort(av[::-1]))
+        out["models"] = dg(sorted(
+            (k, repr(world._norm(md.get_parameter_defaults())))
+            for k, md in model.models_available.items()
+            if not k.startswith("verif")))
+        out["regressors"] = dg(sorted(
+            (k, v[0].__name__, sorted(v[1].items()))
+            for k, v in reg_dict.items()))
+        r = nrater.get_rater("Extra Trees")
+        out["rater_default"] = dg(sorted(
+            (k, repr(v)) for k, v in
+            r.pipeline.steps[-1][1].get_params().items())
+            if hasattr(r, "pipeline") else repr(r))
+        d2 = synth.make_curve(n_app=300, noise=2e-11, seed=3)
+        d2.apply_preprocessing(list(P1))
+        d2.fit_model(model_key="hertz_para")
+        out["fit_default_again"] = state(d2)
+    return out
+
+
 def _exec_chunk(job):
     """job = (cid list, [history, ...]); returns traces + hash observations"""
     import oracle
@@ -86,6 +176,12 @@ def _exec_chunk(job):
     terms0 = orc.terms
     traces, hashobs = [], {}
     raters = dict(world.RATERS)
+    try:
+        SENTINELS.append(sentinel())
+    except BaseException as exc:
+        if isinstance(exc, (KeyboardInterrupt, SystemExit)):
+            raise
+        SENTINELS.append({"raised": type(exc).__name__})
     for n, (hist, tag) in enumerate(zip(histories, tags)):
         cid = cids[n % len(cids)]
         if tag.startswith("scripted:"):
@@ -96,8 +192,12 @@ def _exec_chunk(job):
         traces.append(tr)
         for k, v in ex.hashobs.items():
             hashobs.setdefault((cid,) + k, dict(v, cid=cid))
+    for tr in traces[:1]:
+        tr["sentinel"] = SENTINELS[-1]
     return traces, list(hashobs.values()), orc.terms - terms0
 
+
+SENTINELS = []
 
 _ORC = None
 _IDS = None
@@ -226,6 +326,7 @@ def slim(tr):
     init = dict(tr["init"])
     init.pop("why", None)
     return {"init": init, "events": [ev(e) for e in tr["events"]]}
+    # (the sentinel observations travel separately)
 
 
 PAD_OBS = {"xy": "pad", "pipe_fp": "pad",
@@ -248,9 +349,15 @@ def validate(ctx, traces, hashobs, label, batch=400):
         if not chunk:
             break
         path = ctx.scratch / f"curve_batch_{label}_{b0}.json"
+        sent = [t["sentinel"] for t in traces if "sentinel" in t] \
+            if b0 == 0 else []
+        fields = sorted({k for sdict in sent for k in sdict}) or ["pad"]
+        sent = [{k: sdict.get(k, "missing") for k in fields}
+                for sdict in sent] or [{"pad": "pad"}]
         path.write_text(json.dumps(vcommon.jsonable(
             {"traces": [slim(t) for t in chunk],
-             "hashobs": obs if b0 == 0 else [PAD_OBS]})))
+             "hashobs": obs if b0 == 0 else [PAD_OBS],
+             "sentinels": sent})))
         res = vcommon.tlc("CurveTrace.tla", "CurveTrace.cfg", ctx.scratch,
                           env={"TRACE_FILE": path}, workers=1,
                           coverage=False, timeout=3600,
@@ -266,7 +373,12 @@ def validate(ctx, traces, hashobs, label, batch=400):
             elif "hashpairs" in obj:
                 pairs = [(full[a - 1], full[b - 1])
                          for a, b in obj["hashpairs"]]
+            elif "sentinel_fields" in obj:
+                SENTINEL_FAILED[:] = sorted(obj["sentinel_fields"])
     return failed, pairs, states
+
+
+SENTINEL_FAILED = []
 
 
 def signature(op):
@@ -364,6 +476,15 @@ def run_engine(ctx, prefix, slices, n_random, rand_len, rand_weights=None,
                 ctx.report(fp, describe(cl, tr, ei),
                            {"kind": "curve", "cid": tr["cid"],
                             "ops": prefix_ops, "clause": cl})
+    if SENTINEL_FAILED:
+        ctx.report(f"{prefix}ProcessHistoryFree|" + ",".join(SENTINEL_FAILED),
+                   "default-everything calls on FRESH objects give different "
+                   "results depending on what the worker process did before "
+                   f"(fields that differ between runs: {SENTINEL_FAILED}): "
+                   "module-level state of the library was changed by an "
+                   "earlier call",
+                   {"kind": "sentinel", "fields": list(SENTINEL_FAILED)})
+    ctx.coverage["sentinel_runs"] = sum(1 for t in traces if "sentinel" in t)
     ctx.coverage.update({
         "histories": len(histories),
         "events": sum(len(t["events"]) for t in traces),
@@ -406,6 +527,11 @@ def describe(clause, tr, ei):
 
 
 def replay(ctx, obj, prefix):
+    if obj.get("kind") == "sentinel":
+        print("process-state sentinel: the fields", obj.get("fields"),
+              "differed between runs of the default-everything calls in one "
+              "worker process; re-run the check to reproduce")
+        return False
     import oracle
     import curve_exec
     orc = oracle.Oracle(curve_factories())
